@@ -28,20 +28,21 @@ Section Proto.
 Variable ip6 : str -> option str.
 Variable handler : str -> hres.
 Variable has_mw has_upload : bool.
+Variable up_call_fails : option str.
 Variable peer_ip : str.
 Variable peer_fp : option str.
 
 Notation route := (route handler).
-Notation start_upload := (start_upload has_upload).
-Notation task_done := (task_done handler has_upload).
-Notation step := (step ip6 handler has_mw has_upload peer_ip peer_fp).
-Notation run := (run ip6 handler has_mw has_upload peer_ip peer_fp).
-Notation final := (final ip6 handler has_mw has_upload peer_ip peer_fp).
+Notation start_upload := (start_upload has_upload up_call_fails).
+Notation task_done := (task_done handler has_upload up_call_fails).
+Notation step := (step ip6 handler has_mw has_upload up_call_fails peer_ip peer_fp).
+Notation run := (run ip6 handler has_mw has_upload up_call_fails peer_ip peer_fp).
+Notation final := (final ip6 handler has_mw has_upload up_call_fails peer_ip peer_fp).
 Notation Inv := (Inv has_upload).
 Notation Fed := (Fed ip6 has_upload).
-Notation Eff_step := (Eff_step ip6 handler has_mw has_upload peer_ip peer_fp).
-Notation Inv_step := (Inv_step ip6 handler has_mw has_upload peer_ip peer_fp).
-Notation Inv_final := (Inv_final ip6 handler has_mw has_upload peer_ip peer_fp).
+Notation Eff_step := (Eff_step ip6 handler has_mw has_upload up_call_fails peer_ip peer_fp).
+Notation Inv_step := (Inv_step ip6 handler has_mw has_upload up_call_fails peer_ip peer_fp).
+Notation Inv_final := (Inv_final ip6 handler has_mw has_upload up_call_fails peer_ip peer_fp).
 
 (* ---------- pending tasks against the trace ---------- *)
 Lemma pend_step s e x : Inv s -> In x (pending (fst (step s e))) ->
@@ -139,14 +140,14 @@ Proof.
   intro O. unfold Spec.C15.ok. apply andb_true_iff. split; [apply andb_true_iff; split|].
   - unfold Spec.C15.no_stuck. destruct (has_lost evs) eqn:L; [reflexivity|].
     assert (N : NS (final init evs)).
-    { apply (NS_final ip6 handler has_mw has_upload peer_ip peer_fp); auto.
+    { apply (NS_final ip6 handler has_mw has_upload up_call_fails peer_ip peer_fp); auto.
       - apply Inv_init.
       - right; left; split; [reflexivity|left; reflexivity]. }
     pose proof (Inv_final evs init (Inv_init has_upload)) as I.
     destruct N as [C|[[A _]|P]].
     + (* closed *)
       unfold Spec.C15.closed_in. rewrite wire_closed.
-      pose proof (run_closes ip6 handler has_mw has_upload peer_ip peer_fp evs init) as E.
+      pose proof (run_closes ip6 handler has_mw has_upload up_call_fails peer_ip peer_fp evs init) as E.
       rewrite <- (i_sent _ _ I) in C. unfold cs in E. rewrite C in E. cbn in E.
       assert (existsb is_close (flat (run init evs)) = true) as ->
         by (apply existsb_count_pos; unfold closes in E; slia).
@@ -176,7 +177,7 @@ Proof using Cup.
   pose proof (quiescent_no_pending evs Q) as P.
   pose proof (Inv_final evs init (Inv_init has_upload)) as I.
   assert (N : NS (final init evs)).
-  { apply (NS_final ip6 handler has_mw has_upload peer_ip peer_fp); auto.
+  { apply (NS_final ip6 handler has_mw has_upload up_call_fails peer_ip peer_fp); auto.
     - apply Inv_init.
     - right; left; split; [reflexivity|left; reflexivity]. }
   assert (TR : tr (final init evs) = true) by (rewrite tr_final by assumption; reflexivity).
@@ -184,7 +185,7 @@ Proof using Cup.
   { destruct (closing (final init evs)) eqn:C; [reflexivity|]. exfalso.
     destruct N as [N|[[A PH]|N]]; [congruence| |contradiction].
     apply orb_true_iff in Trig as [RC|TF].
-    - pose proof (Fed_final ip6 handler has_mw has_upload peer_ip peer_fp evs init [] (Inv_init has_upload)
+    - pose proof (Fed_final ip6 handler has_mw has_upload up_call_fails peer_ip peer_fp evs init [] (Inv_init has_upload)
                     eq_refl L (Fed_init ip6 has_upload)) as [FA FB]. cbn [app] in *.
       unfold Spec.C01.request_complete in RC.
       destruct PH as [PH|PH].
@@ -197,7 +198,7 @@ Proof using Cup.
         * rewrite (i_line _ _ I LR) in PH. discriminate.
     - apply (fired_not_armed evs init true eq_refl TF). exact A. }
   rewrite <- (i_sent _ _ I) in C.
-  destruct (W_run ip6 handler has_mw has_upload peer_ip peer_fp evs evs (fun e H => H) init)
+  destruct (W_run ip6 handler has_mw has_upload up_call_fails peer_ip peer_fp evs evs (fun e H => H) init)
     as [[H1 H2]|[H1 [H2 [r [H3 H4]]]]].
   - cbn in H2. congruence.
   - rewrite wire_wc, H3, wire_resp_acts.
